@@ -7,7 +7,7 @@ from . import common as C
 PKINDS = ['pthread', 'pprocess', 'premote']
 
 
-def gen_pool_case(ctx, rng, i, tag, retry=None, enqueue_fn_ok=True, return_results=None, survivor=None, directed_late=False, double_death=False):
+def gen_pool_case(ctx, rng, i, tag, retry=None, enqueue_fn_ok=True, return_results=None, survivor=None, directed_late=False, double_death=False, kw_ok=False):
     from harness.check import draw_env
     nw = rng.randrange(1, 4)
     remote = rng.random() < 0.35
@@ -59,8 +59,13 @@ def gen_pool_case(ctx, rng, i, tag, retry=None, enqueue_fn_ok=True, return_resul
     refuse = None
     if enqueue_fn_ok and rng.random() < 0.25:
         refuse = [[rng.randrange(nw), x] for x in inputs if rng.random() < 0.3]
+    kw_tag = None
+    if kw_ok and enqueue_fn_ok and rng.random() < 0.2:
+        # a user enqueue function that passes a keyword argument along with some of the inputs only (their results show it)
+        kw_tag = [x for x in inputs if rng.random() < 0.4]
+        refuse = refuse or []
     pol, knobs = draw_env(rng, tcp=remote, adversarial_ok=True)
-    return {'kind': 'pool', 'workers': workers, 'inputs': inputs, 'poison': poison, 'faults': faults, 'refuse': refuse,
+    return {'kind': 'pool', 'workers': workers, 'inputs': inputs, 'poison': poison, 'faults': faults, 'refuse': refuse, 'kw_tag': kw_tag,
             'extra_pending': rng.choice([1, 2]) if directed_late else rng.choice([0, 0, 1, 2]), 'retry': rng.choice([True, True, False]) if retry is None else retry,
             'return_results': rng.choice([True, True, True, False]) if return_results is None else return_results,
             'input_mode': rng.choice(['iter', 'iter', 'callable']), 'slow': rng.choice([0.0, 0.0, 0.01]),
@@ -125,7 +130,10 @@ class PoolRun:
                 idx = next((i for i, w in enumerate(ws) if w is worker), -1)
                 if (idx, inp[0]) in refuse:
                     return False
-                worker.enqueue(*inp)
+                if c.get('kw_tag') and inp[0] in c['kw_tag']:
+                    worker.enqueue(*inp, tagk='k')
+                else:
+                    worker.enqueue(*inp)
                 return True
             kw['enqueue_fn'] = enqueue_fn
         if c['input_mode'] == 'callable':
@@ -162,6 +170,10 @@ class PoolRun:
                 seen.add(k)
                 out.append(v)
         return out
+
+
+def expected_result(case, x):
+    return ['r', x, 'k'] if case.get('kw_tag') and x in case['kw_tag'] else ['r', x]
 
 
 def tb_tail(e):
